@@ -110,7 +110,7 @@ func (env *SpecEnv) expr(e *SExpr) specVal {
 			} else {
 				hi = StrLen(x.t)
 			}
-			return specVal{MkStr(StrArr(x.t), Add(StrOff(x.t), lo), Sub(hi, lo)), x.typ}
+			return specVal{MkStr(Shl(StrArr(x.t), lo), Sub(hi, lo)), x.typ}
 		default:
 			if _, ok := x.typ.Underlying().(*types.Slice); ok {
 				if e.Args[2] != nil {
@@ -490,14 +490,21 @@ func (env *SpecEnv) call(e *SExpr) specVal {
 			}
 		}
 		b := inner.boolExpr(body)
-		var pts []*Term
+		var pts [][]*Term
 		for _, p := range pats {
+			var one []*Term
 			for _, a := range p.Args {
-				pts = append(pts, inner.expr(a).t)
+				one = append(one, inner.expr(a).t)
 			}
+			pts = append(pts, one)
 		}
 		if e.Name == "forall" {
-			return specVal{Forall(bvs, Implies(And(rng...), b), pts...), tBool}
+			q := Forall(bvs, Implies(And(rng...), b))
+			if len(pts) > 0 && q.Op == "forall" {
+				q.Pats = pts[0]
+				q.AltPats = pts[1:]
+			}
+			return specVal{q, tBool}
 		}
 		return specVal{Exists(bvs, And(append(rng, b)...)), tBool}
 	case "len":
